@@ -261,13 +261,17 @@ package service
 //@ immutable OrdaService.managers
 //@ pred svcWF(s *OrdaService) = s.managers != nil && s.managers.Mongo != nil && s.managers.Mongo.MongoCollections != nil
 
-// newPushPullHandler builds a handler for one pack. Trusted (constructor): its gotOption field is a
+// newPushPullHandler builds a handler for one pack, with a context (logger, tags) OF ITS OWN: the handlers of one
+// message run as goroutines and re-tag their context, so a shared one is a data race (structural obligation: the body
+// creates the context with context.NewOrdaContext). Trusted (constructor): its gotOption field is a
 // Go interior pointer to ppp.Option, which the engine's heap model does not represent; the contract
 // states the value it reads.
 //@ func newPushPullHandler
 //@   trusted constructor; stores an interior pointer (&ppp.Option) in a field
 //@   mode wrap
 //@   fresh
+//@   props C12
+//@   calls-in-entry context.NewOrdaContext
 //@   requires ppp != nil && clientDoc != nil && collectionDoc != nil && ctx != nil && clients != nil && clients.Mongo != nil && clients.Mongo.MongoCollections != nil
 //@   ensures handlerWF(result) && result.gotPushPullPack == ppp && result.clientDoc == clientDoc && result.collectionDoc == collectionDoc && result.managers == clients && result.Key == ppp.Key && result.DUID == ppp.DUID && result.CUID == clientDoc.CUID
 //@   ensures deref(result.gotOption) == ppp.Option && result.isReadOnly == optBit(ppp.Option, 64) && result.datatypeDoc == nil && len(result.pushingOperations) == 0 && result.lock == nil && !result.locked
